@@ -459,6 +459,17 @@ func VerifH07b() {
 	w := &vWorld{parseMenu: -1, execMenu: 1}
 	srv, err := NewServer(w.parse, MessageBufferSize(64))
 	vAssert("newserver-ok", err == nil)
+	// the first connection says goodbye (Terminate) or is simply dropped by its
+	// peer at a message boundary, or in the middle of a message
+	switch vChoose(3) {
+	case 0:
+		first = vCat(first, vMsgBytes('X', nil))
+	case 1:
+		first = vCat(first, []byte{'Q', 0, 0})
+		vReach("first-connection-dropped-inside-a-message")
+	default:
+		vReach("first-connection-dropped-without-terminate")
+	}
 	c1 := vNewConn(first)
 	srv.serve(context.Background(), c1) //nolint
 	t1 := vTypes(c1.out)
@@ -534,13 +545,20 @@ func VerifH19() {
 	}
 	customCaches := nondetBool() // configuration: user-supplied statement and portal caches
 	if customCaches {
-		opts = append(opts, Statements(func() StatementCache { return &vStmtCache{m: map[string]*Statement{}} }),
-			Portals(func() PortalCache { return &vPortalCache{m: map[string]*Portal{}} }))
+		opts = append(opts, Statements(func() StatementCache { return vNewStmtCache() }),
+			Portals(func() PortalCache { return vNewPortalCache() }))
 	}
 	srv, err := vServerCfg(w.parse, opts...)
 	vAssert("newserver-ok", err == nil)
 
 	input := vStartup(vKV([]byte("user"), []byte("u")))
+	// the client may also send parameters whose value is empty (present, but
+	// empty — legal): they take nothing away from the others
+	emptyValued := nondetBool()
+	if emptyValued {
+		input = vStartup(vKV([]byte("application_name"), nil, []byte("user"), []byte("u"), []byte("options"), nil))
+		vReach("startup-parameters-with-empty-values")
+	}
 	if withAuth {
 		input = vCat(input, vMsgBytes('p', vCStr([]byte("pw"))))
 	}
@@ -645,29 +663,42 @@ func VerifH19() {
 	}
 }
 
-// user-supplied caches (the Statements / Portals options): the simplest
-// implementations a user would write against the exported interfaces
-type vStmtCache struct{ m map[string]*Statement }
+// user-supplied caches (the Statements / Portals options). The fields of
+// Statement and Portal are unexported, so what a user can write against the
+// exported interfaces is a cache of their own (own keys, own bookkeeping) that
+// hands the storing to the library's default implementations. These two do
+// not implement the optional closer interfaces.
+type vStmtCache struct {
+	inner StatementCache
+	sets  int
+}
+
+func vNewStmtCache() *vStmtCache { return &vStmtCache{inner: DefaultStatementCacheFn()} }
 
 func (c *vStmtCache) Set(ctx context.Context, name string, stmt *PreparedStatement) error {
-	c.m[name] = &Statement{fn: stmt.fn, parameters: stmt.parameters, columns: stmt.columns}
-	return nil
+	c.sets++
+	return c.inner.Set(ctx, name, stmt)
 }
-func (c *vStmtCache) Get(ctx context.Context, name string) (*Statement, error) { return c.m[name], nil }
+func (c *vStmtCache) Get(ctx context.Context, name string) (*Statement, error) {
+	return c.inner.Get(ctx, name)
+}
 
-type vPortalCache struct{ m map[string]*Portal }
+type vPortalCache struct {
+	inner PortalCache
+	binds int
+}
+
+func vNewPortalCache() *vPortalCache { return &vPortalCache{inner: DefaultPortalCacheFn()} }
 
 func (c *vPortalCache) Bind(ctx context.Context, name string, stmt *Statement, params []Parameter, formats []FormatCode) error {
-	c.m[name] = &Portal{statement: stmt, parameters: params, formats: formats}
-	return nil
+	c.binds++
+	return c.inner.Bind(ctx, name, stmt, params, formats)
 }
-func (c *vPortalCache) Get(ctx context.Context, name string) (*Portal, error) { return c.m[name], nil }
+func (c *vPortalCache) Get(ctx context.Context, name string) (*Portal, error) {
+	return c.inner.Get(ctx, name)
+}
 func (c *vPortalCache) Execute(ctx context.Context, name string, reader *buffer.Reader, writer *buffer.Writer) error {
-	p := c.m[name]
-	if p == nil {
-		return NewErrUnkownStatement(name)
-	}
-	return p.statement.fn(ctx, NewDataWriter(ctx, p.statement.columns, p.formats, reader, writer), p.parameters)
+	return c.inner.Execute(ctx, name, reader, writer)
 }
 
 // ---------------------------------------------------------------------------
@@ -809,8 +840,8 @@ func VerifH19e() {
 			return context.WithValue(ctx, vKey(7), 7), nil
 		})}
 	if customCaches {
-		opts = append(opts, Statements(func() StatementCache { return &vStmtCache{m: map[string]*Statement{}} }),
-			Portals(func() PortalCache { return &vPortalCache{m: map[string]*Portal{}} }))
+		opts = append(opts, Statements(func() StatementCache { return vNewStmtCache() }),
+			Portals(func() PortalCache { return vNewPortalCache() }))
 	}
 	srv, err := NewServer(w.parse, opts...)
 	vAssert("newserver-ok", err == nil)
